@@ -291,6 +291,9 @@ impl Encoder for GossipsubCodec {
     }
 }
 
+/// The maximum number of bytes of an `unsigned-varint` encoded `usize` length prefix.
+const MAX_LEN_PREFIX_BYTES: usize = 10;
+
 /// Validate RPC limits by parsing the wire format without allocating.
 fn validate_rpc_limits(
     mut buf: &[u8],
@@ -298,17 +301,30 @@ fn validate_rpc_limits(
     max_publish_messages: usize,
     max_control_message_size: usize,
 ) -> io::Result<bool> {
-    let message_length = buf.len();
-    if message_length > max_message_size {
-        return Err(io::Error::new(
+    let too_large = |message_length: usize| {
+        io::Error::new(
             io::ErrorKind::InvalidData,
             format!("message with {message_length}b exceeds maximum of {max_message_size}b",),
-        ));
-    }
+        )
+    };
 
     // Consume length prefix and get message bytes from length-prefixed buffer for validation
+    let buffered = buf.len();
     if !consume_message_prefix(&mut buf)? {
+        // The frame is still incomplete, i.e. everything buffered so far (a length prefix of
+        // at most `MAX_LEN_PREFIX_BYTES` plus message bytes) belongs to it. Reject it as soon
+        // as that alone exceeds the limit rather than buffering it completely.
+        if buffered > max_message_size.saturating_add(MAX_LEN_PREFIX_BYTES) {
+            return Err(too_large(buffered - MAX_LEN_PREFIX_BYTES));
+        }
         return Ok(false);
+    }
+
+    // The limit applies to this frame's message only: the buffer may already hold the
+    // length prefix and (parts of) subsequent frames as well.
+    let message_length = buf.len();
+    if message_length > max_message_size {
+        return Err(too_large(message_length));
     }
 
     let mut publish_count = 0;
